@@ -113,7 +113,7 @@ Proof.
 Qed.
 
 Lemma inv_set_sp m s x : inv_m m -> inv_space x -> inv_m (set_sp m s x).
-Proof. intros (Hf & Hg & Hm) Hx. destruct s; cbn; repeat split; assumption. Qed.
+Proof. intros (Hf & Hg & Hm) Hx. destruct s; cbn; (split; [|split]); assumption. Qed.
 Lemma inv_get_sp m s : inv_m m -> inv_space (get_sp m s).
 Proof. intros (Hf & Hg & Hm). destruct s; assumption. Qed.
 Lemma inv_imports m l : inv_m m -> inv_m (mkM (m_f m) (m_g m) (m_m m) l).
@@ -133,7 +133,7 @@ Lemma push_import_inv m s fp m1 id k : push_import m s fp = (m1, id, k) -> inv_m
 Proof.
   unfold push_import. intros H (Hf & Hg & Hm). inversion H; subst; clear H.
   assert (E : forall x : space, s_num x + 1 - (s_added x + 1) = s_num x - s_added x) by (intros; lia).
-  destruct s; cbn; repeat split; try assumption; apply inv_same; auto.
+  destruct s; cbn; (split; [|split]); try assumption; apply inv_same; auto.
 Qed.
 Lemma push_import_items m s fp m1 id k : push_import m s fp = (m1, id, k) ->
   s_items (m_f m1) = s_items (m_f m) /\ s_items (m_g m1) = s_items (m_g m) /\ s_items (m_m m1) = s_items (m_m m).
@@ -146,23 +146,23 @@ Proof.
   - (* AddLocal *)
     destruct s.
     + match type of H with (if ?c then _ else _) = _ => destruct c end; [|discriminate].
-      inversion H; subst; clear H. cbn. repeat split; try assumption. apply inv_push; auto.
-    + inversion H; subst; clear H. cbn. repeat split; try assumption. apply inv_push; auto.
-    + inversion H; subst; clear H. cbn. repeat split; try assumption. apply inv_push; auto.
+      inversion H; subst; clear H. cbn. (split; [|split]); try assumption. apply inv_push; auto.
+    + inversion H; subst; clear H. cbn. (split; [|split]); try assumption. apply inv_push; auto.
+    + inversion H; subst; clear H. cbn. (split; [|split]); try assumption. apply inv_push; auto.
   - (* AddImport *)
     destruct s.
     + destruct (push_import m SF fp) as [[m1 id] k] eqn:E.
       pose proof (push_import_inv _ _ _ _ _ _ E Hinv) as (Hf1 & Hg1 & Hm1).
       match type of H with (if ?c then _ else _) = _ => destruct c eqn:Ec end; [|discriminate].
-      inversion H; subst; clear H. cbn. repeat split; try assumption.
+      inversion H; subst; clear H. cbn. (split; [|split]); try assumption.
       apply inv_push; auto. cbn [it_id]. apply N.eqb_eq in Ec. cbn [get_sp] in Ec. symmetry. exact Ec.
     + destruct (push_import m SG fp) as [[m1 id] k] eqn:E.
       pose proof (push_import_inv _ _ _ _ _ _ E Hinv) as (Hf1 & Hg1 & Hm1).
-      inversion H; subst; clear H. cbn. repeat split; try assumption. apply inv_push; auto.
+      inversion H; subst; clear H. cbn. (split; [|split]); try assumption. apply inv_push; auto.
     + destruct (push_import m SM fp) as [[m1 id] k] eqn:E.
       pose proof (push_import_inv _ _ _ _ _ _ E Hinv) as (Hf1 & Hg1 & Hm1).
       match type of H with (if ?c then _ else _) = _ => destruct c eqn:Ec end; [|discriminate].
-      inversion H; subst; clear H. cbn. repeat split; try assumption.
+      inversion H; subst; clear H. cbn. (split; [|split]); try assumption.
       apply inv_push; auto. cbn [it_id]. apply N.eqb_eq in Ec. cbn [get_sp] in Ec. symmetry. exact Ec.
   - (* Delete *)
     destruct (delete_in m s id) as [m1|] eqn:E; [|discriminate]. inversion H; subst; clear H.
@@ -174,7 +174,7 @@ Proof.
     pose proof (delete_in_inv _ _ _ _ E Hinv) as Hinv1.
     destruct (push_import m1 SF fp) as [[m2 id2] k] eqn:E2.
     pose proof (push_import_inv _ _ _ _ _ _ E2 Hinv1) as (Hf2 & Hg2 & Hm2).
-    inversion H; subst; clear H. cbn. repeat split; try assumption.
+    inversion H; subst; clear H. cbn. (split; [|split]); try assumption.
     apply inv_upd; auto.
   - (* ImportToLocal *)
     destruct (nthN (m_imports m) k) as [im|]; [|discriminate].
@@ -183,11 +183,509 @@ Proof.
     destruct (is_local it); [inversion H; subst; exact Hinv|].
     destruct (delete_in m SF k) as [m1|] eqn:E; [|discriminate].
     pose proof (delete_in_inv _ _ _ _ E Hinv) as (Hf1 & Hg1 & Hm1).
-    inversion H; subst; clear H. cbn. repeat split; try assumption.
+    inversion H; subst; clear H. cbn. (split; [|split]); try assumption.
     apply inv_upd; auto.
   - (* ItAddGlobal *)
-    inversion H; subst; clear H. cbn. repeat split; try assumption. apply inv_push; auto.
+    inversion H; subst; clear H. cbn. (split; [|split]); try assumption. apply inv_push; auto.
   - inversion H; subst; exact Hinv.
   - inversion H; subst; exact Hinv.
   - inversion H; subst; exact Hinv.
+Qed.
+
+(* ------------------------------------------------------------------------------------------ *)
+(* 2. every state reached by a history satisfies the invariant                                  *)
+Ltac break_match_in H :=
+  repeat match type of H with
+         | context [match ?x with _ => _ end] => destruct x eqn:?
+         end.
+
+Lemma nstep_edit_m s e b s' r : nstep s (NEdit e b) = Ok (s', r) -> Reindex.step (ns_m s) e = Ok (ns_m s', r).
+Proof.
+  unfold nstep. intros H.
+  destruct (match e with
+            | ItAddGlobal _ => if existsb is_local (s_items (m_f (ns_m s))) then Reindex.step (ns_m s) e else Panic 65
+            | _ => Reindex.step (ns_m s) e
+            end) as [[m' r']|w] eqn:E; [|discriminate].
+  assert (E' : Reindex.step (ns_m s) e = Ok (m', r')).
+  { destruct e; try exact E. destruct (existsb _ _); [exact E|discriminate]. }
+  rewrite E'. clear E E'.
+  break_match_in H; inversion H; subst; reflexivity.
+Qed.
+
+Lemma nstep_inv s o s' r : nstep s o = Ok (s', r) -> inv_m (ns_m s) -> inv_m (ns_m s').
+Proof.
+  intros H Hinv. destruct o as [e b|id t|id t|id t|k t].
+  - apply nstep_edit_m in H. exact (step_inv _ _ _ _ H Hinv).
+  - unfold nstep, imp_set_fn_name in H. break_match_in H; inversion H; subst; exact Hinv.
+  - unfold nstep in H. break_match_in H; inversion H; subst; exact Hinv.
+  - unfold nstep, imp_set_fn_name in H. break_match_in H; inversion H; subst; exact Hinv.
+  - unfold nstep in H. break_match_in H; inversion H; subst; exact Hinv.
+Qed.
+
+Lemma nrun_pref_inv : forall h s rets s' rets' p,
+  nrun_pref s h rets = (s', rets', p) -> inv_m (ns_m s) -> inv_m (ns_m s').
+Proof.
+  induction h as [|o h IH]; intros s rets s' rets' p H Hinv; cbn in H.
+  - inversion H; subst. exact Hinv.
+  - destruct (nstep s o) as [[s1 r]|w] eqn:E.
+    + exact (IH _ _ _ _ _ H (nstep_inv _ _ _ _ E Hinv)).
+    + inversion H; subst. exact Hinv.
+Qed.
+
+Lemma init_state_inv c s0 : init_state c = Ok s0 -> inv_m (ns_m s0).
+Proof.
+  unfold init_state, parse_names. intros H.
+  destruct (parse_fnames _ _ _ _) as [[i b]|]; [|discriminate]. inversion H; subst. cbn.
+  unfold mk_base. cbn. split; [|split]; apply mk_space_inv.
+Qed.
+
+Theorem reachable_inv c s0 h s rets p :
+  init_state c = Ok s0 -> nrun_pref s0 h [] = (s, rets, p) -> inv_m (ns_m s).
+Proof. intros H0 H. exact (nrun_pref_inv _ _ _ _ _ _ H (init_state_inv _ _ H0)). Qed.
+
+(* ------------------------------------------------------------------------------------------ *)
+(* 3. the vector after recalculate_ids still carries pairwise distinct stored ids               *)
+Lemma NoDup_app_intro {A} (a b : list A) : NoDup a -> NoDup b -> (forall x, In x a -> ~ In x b) -> NoDup (a ++ b).
+Proof.
+  induction a as [|x a IH]; intros Ha Hb Hd; [exact Hb|].
+  inversion Ha; subst. cbn. constructor.
+  - intro Hin. apply in_app_or in Hin as [Hin|Hin]; [contradiction|]. exact (Hd x (or_introl eq_refl) Hin).
+  - apply IH; [assumption|assumption|]. intros y Hy. apply Hd. right. exact Hy.
+Qed.
+Lemma NoDup_app_disj {A} (a b : list A) : NoDup (a ++ b) -> forall x, In x a -> ~ In x b.
+Proof.
+  induction a as [|y a IH]; intros H x Hx; [destruct Hx|].
+  cbn in H. inversion H; subst. destruct Hx as [->|Hx].
+  - intro Hb. apply H2. apply in_or_app. right. exact Hb.
+  - exact (IH H3 x Hx).
+Qed.
+Lemma NoDup_app_l {A} (a b : list A) : NoDup (a ++ b) -> NoDup a.
+Proof.
+  induction a as [|y a IH]; intros H; [constructor|]. cbn in H. inversion H; subst. constructor.
+  - intro Hin. apply H2. apply in_or_app. left. exact Hin.
+  - exact (IH H3).
+Qed.
+Lemma NoDup_app_r {A} (a b : list A) : NoDup (a ++ b) -> NoDup b.
+Proof. induction a as [|y a IH]; intros H; [exact H|]. cbn in H. inversion H; subst. exact (IH H3). Qed.
+Lemma NoDup_map_inj_on {A B} (f : A -> B) (s : list A) :
+  NoDup s -> (forall a b, In a s -> In b s -> f a = f b -> a = b) -> NoDup (map f s).
+Proof.
+  induction s as [|x s IH]; intros Hn Hi; [constructor|].
+  inversion Hn; subst. cbn. constructor.
+  - intro Hin. apply in_map_iff in Hin as (y & Hy & Hys).
+    assert (y = x) by (apply Hi; [right; exact Hys|left; reflexivity|exact Hy]). subst. contradiction.
+  - apply IH; [assumption|]. intros a b Ha Hb. apply Hi; right; assumption.
+Qed.
+
+Lemma pos_ids_inj l : pos_ids l -> forall a b, In a l -> In b l -> it_id a = it_id b -> a = b.
+Proof.
+  intros H a b Ha Hb E. apply In_nth_error in Ha as [p Hp]. apply In_nth_error in Hb as [q Hq].
+  rewrite (H _ _ Hp), (H _ _ Hq) in E. assert (p = q) by lia. subst. congruence.
+Qed.
+
+Lemma spec_incl orig l x : In x (spec orig l) -> In x l.
+Proof.
+  unfold spec. intros H. rewrite <- (firstn_skipn orig l).
+  repeat (apply in_app_or in H as [H|H]); apply filter_In in H as [H _]; apply in_or_app; auto.
+Qed.
+
+Lemma spec_NoDup orig l : NoDup l -> NoDup (spec orig l).
+Proof.
+  intros Hn. rewrite <- (firstn_skipn orig l) in Hn.
+  pose proof (NoDup_app_r _ _ Hn) as Hs. pose proof (NoDup_app_l _ _ Hn) as Hf.
+  pose proof (NoDup_app_disj _ _ Hn) as Hd.
+  unfold spec. set (F := firstn orig l) in *. set (S := skipn orig l) in *.
+  apply NoDup_app_intro; [apply NoDup_filter; exact Hf| |].
+  - apply NoDup_app_intro; [apply NoDup_filter; exact Hs| |].
+    + apply NoDup_app_intro; [apply NoDup_filter; exact Hs|apply NoDup_filter; exact Hf|].
+      intros x H1 H2. apply filter_In in H1 as [H1 _]. apply filter_In in H2 as [H2 _]. exact (Hd x H2 H1).
+    + intros x H1 H2. apply filter_In in H1 as [H1 P1]. apply in_app_or in H2 as [H2|H2]; apply filter_In in H2 as [H2 P2].
+      * unfold keepC, is_import in *. destruct (is_local x); cbn in *; discriminate.
+      * exact (Hd x H2 H1).
+  - intros x H1 H2. apply filter_In in H1 as [H1 P1].
+    apply in_app_or in H2 as [H2|H2]; [|apply in_app_or in H2 as [H2|H2]]; apply filter_In in H2 as [H2 P2].
+    + exact (Hd x H1 H2).
+    + exact (Hd x H1 H2).
+    + unfold keepA, is_import in *. destruct (is_local x); cbn in *; discriminate.
+Qed.
+
+Theorem index_space_NoDup (s : space) lf mf :
+  inv_space s -> index_space s = Ok (lf, mf) -> NoDup (map it_id lf) /\ mf = mapping lf.
+Proof.
+  intros [Hp Hle] H. unfold index_space in H. destruct (s_recalc s).
+  - rewrite reorganise_spec_N in H by exact Hle.
+    destruct (N.eqb _ _); inversion H; subst. split; [|reflexivity].
+    apply NoDup_map_inj_on.
+    + apply spec_NoDup. exact (NoDup_map_inv _ _ (pos_ids_NoDup _ Hp)).
+    + intros a b Ha Hb. apply (pos_ids_inj _ Hp); apply (spec_incl (N.to_nat (s_num s - s_added s))); assumption.
+  - inversion H; subst. split; [apply pos_ids_NoDup; exact Hp|reflexivity].
+Qed.
+
+(* ------------------------------------------------------------------------------------------ *)
+(* 4. what the rebuilt function-name map contains                                               *)
+Lemma emit_body_names_spec : forall l nm pos q t,
+  In (q, t) (emit_body_names pos l nm) <->
+  exists p it, nth_error l p = Some it /\ is_local it = true /\ it_del it = false /\
+               lookup nm (it_id it) = Some t /\ q = pos + N.of_nat p.
+Proof.
+  induction l as [|x l IH]; intros nm pos q t; cbn [emit_body_names].
+  - split; [intros []|]. intros (p & it & Hn & _). destruct p; discriminate.
+  - assert (Tail : In (q, t) (emit_body_names (pos + 1) l nm) ->
+                   exists p it, nth_error (x :: l) p = Some it /\ is_local it = true /\ it_del it = false /\
+                                lookup nm (it_id it) = Some t /\ q = pos + N.of_nat p).
+    { intros H. apply IH in H as (p & it & Hn & Hl & Hd & Hk & Hq). exists (S p), it. cbn [nth_error].
+      repeat split; try assumption. lia. }
+    assert (TailR : forall p it, nth_error l p = Some it -> is_local it = true -> it_del it = false ->
+                    lookup nm (it_id it) = Some t -> In (pos + N.of_nat (S p), t) (emit_body_names (pos + 1) l nm)).
+    { intros p it Hn Hl Hd Hk. apply IH. exists p, it. repeat split; try assumption. lia. }
+    destruct (it_del x || is_import x) eqn:Eskip.
+    + split; [exact Tail|]. intros (p & it & Hn & Hl & Hd & Hk & ->). destruct p as [|p]; cbn in Hn.
+      * inversion Hn; subst. unfold is_import in Eskip. rewrite Hl, Hd in Eskip. discriminate.
+      * exact (TailR p it Hn Hl Hd Hk).
+    + apply orb_false_iff in Eskip as [Ed Ei]. unfold is_import in Ei. apply negb_false_iff in Ei.
+      destruct (lookup nm (it_id x)) as [t0|] eqn:Ek.
+      * split.
+        -- intros [H|H]; [|exact (Tail H)]. inversion H; subst. exists 0%nat, x. cbn. repeat split; try assumption. lia.
+        -- intros (p & it & Hn & Hl & Hd & Hk & ->). destruct p as [|p]; cbn in Hn.
+           ++ inversion Hn; subst. left. rewrite Hk in Ek. inversion Ek; subst. f_equal. cbn. lia.
+           ++ right. exact (TailR p it Hn Hl Hd Hk).
+      * split; [exact Tail|]. intros (p & it & Hn & Hl & Hd & Hk & ->). destruct p as [|p]; cbn in Hn.
+        -- inversion Hn; subst. rewrite Hk in Ek. discriminate.
+        -- exact (TailR p it Hn Hl Hd Hk).
+Qed.
+
+(* live function imports: the entries of the import vector that occupy a function index of the output *)
+Definition live_fi (i : imp) : bool := negb (i_del i) && N.eqb (i_sp i) 0.
+Definition func_imports_before (k : nat) (l : list imp) : N := lenN (filter live_fi (firstn k l)).
+
+Lemma fib_S k i l : func_imports_before (S k) (i :: l) = (if live_fi i then 1 else 0) + func_imports_before k l.
+Proof. unfold func_imports_before, lenN. cbn [firstn filter]. destruct (live_fi i); cbn [length]; lia. Qed.
+Lemma fib_0 l : func_imports_before 0 l = 0.
+Proof. reflexivity. Qed.
+
+Lemma emit_imp_names_spec : forall l nm pos idx q t,
+  In (q, t) (emit_imp_names pos idx l nm) <->
+  exists k im, nth_error l k = Some im /\ i_sp im = 0 /\ i_del im = false /\
+               lookup nm (pos + N.of_nat k) = Some t /\ q = idx + func_imports_before k l.
+Proof.
+  induction l as [|x l IH]; intros nm pos idx q t; cbn [emit_imp_names].
+  - split; [intros []|]. intros (k & im & Hn & _). destruct k; discriminate.
+  - assert (Tail : forall idx', idx' = idx + (if live_fi x then 1 else 0) ->
+                   In (q, t) (emit_imp_names (pos + 1) idx' l nm) ->
+                   exists k im, nth_error (x :: l) k = Some im /\ i_sp im = 0 /\ i_del im = false /\
+                                lookup nm (pos + N.of_nat k) = Some t /\ q = idx + func_imports_before k (x :: l)).
+    { intros idx' Ei H. apply IH in H as (k & im & Hn & Hs & Hd & Hk & Hq). exists (S k), im. cbn [nth_error].
+      repeat split; try assumption.
+      - replace (pos + N.of_nat (S k)) with (pos + 1 + N.of_nat k) by lia. exact Hk.
+      - rewrite fib_S. lia. }
+    assert (TailR : forall idx' k im, idx' = idx + (if live_fi x then 1 else 0) ->
+                    nth_error l k = Some im -> i_sp im = 0 -> i_del im = false ->
+                    lookup nm (pos + N.of_nat (S k)) = Some t ->
+                    In (idx + func_imports_before (S k) (x :: l), t) (emit_imp_names (pos + 1) idx' l nm)).
+    { intros idx' k im Ei Hn Hs Hd Hk. apply IH. exists k, im. repeat split; try assumption.
+      - replace (pos + 1 + N.of_nat k) with (pos + N.of_nat (S k)) by lia. exact Hk.
+      - rewrite fib_S. lia. }
+    unfold live_fi in Tail, TailR.
+    destruct (i_del x) eqn:Ed; cbn [negb andb] in Tail, TailR.
+    + split; [apply Tail; lia|]. intros (k & im & Hn & Hs & Hd & Hk & ->). destruct k as [|k]; cbn in Hn.
+      * inversion Hn; subst. congruence.
+      * apply (TailR _ k im); auto; lia.
+    + destruct (N.eqb (i_sp x) 0) eqn:Es.
+      * destruct (lookup nm pos) as [t0|] eqn:Ek.
+        -- split.
+           ++ intros [H|H]; [|apply (Tail (idx + 1)); [lia|exact H]]. inversion H; subst.
+              exists 0%nat, x. cbn. repeat split; try assumption.
+              ** apply N.eqb_eq. exact Es.
+              ** rewrite N.add_0_r. exact Ek.
+              ** unfold func_imports_before, lenN. cbn. lia.
+           ++ intros (k & im & Hn & Hs & Hd & Hk & ->). destruct k as [|k]; cbn in Hn.
+              ** inversion Hn; subst. left. rewrite N.add_0_r in Hk. rewrite Hk in Ek. inversion Ek; subst.
+                 rewrite fib_0. f_equal. lia.
+              ** right. apply (TailR _ k im); auto.
+        -- split; [apply Tail; lia|]. intros (k & im & Hn & Hs & Hd & Hk & ->). destruct k as [|k]; cbn in Hn.
+           ++ inversion Hn; subst. rewrite N.add_0_r in Hk. congruence.
+           ++ apply (TailR _ k im); auto.
+      * split; [apply Tail; lia|]. intros (k & im & Hn & Hs & Hd & Hk & ->). destruct k as [|k]; cbn in Hn.
+        -- inversion Hn; subst. rewrite Hs in Es. discriminate.
+        -- apply (TailR _ k im); auto; lia.
+Qed.
+
+(* FULL: for every history, the rebuilt function-name map consists exactly of
+   - for every live local function that carries a body name: (its position in the function vector after
+     recalculate_ids, the name) - and that position is the index the id map sends the function's stored id to, i.e.
+     the index every `call` / `ref.func` / export / start / element reference to the function is rewritten to;
+   - for every live function import that carries a custom name: (its position among the live function imports
+     in import-section order, the name) - the function index Wasm's rule gives the import (see
+     [import_name_index_is_wasm_index]). *)
+Theorem names_follow_functions :
+  forall (c : ncase) (s0 s : nst) (h : list nop) (rets : list (option N)) (lf : list item) (mf : list (N * N)),
+    init_state c = Ok s0 -> nrun_pref s0 h [] = (s, rets, false) ->
+    index_space (m_f (ns_m s)) = Ok (lf, mf) ->
+    forall q t, In (q, t) (emit_fnames s lf) <->
+      (exists p it, nth_error lf p = Some it /\ is_local it = true /\ it_del it = false /\
+                    lookup (ns_body s) (it_id it) = Some t /\ lookup mf (it_id it) = Some q /\ q = N.of_nat p)
+      \/ (exists k im, nth_error (m_imports (ns_m s)) k = Some im /\ i_sp im = 0 /\ i_del im = false /\
+                       lookup (ns_imp s) (N.of_nat k) = Some t /\ q = func_imports_before k (m_imports (ns_m s))).
+Proof.
+  intros c s0 s h rets lf mf H0 Hrun Hidx q t.
+  pose proof (reachable_inv _ _ _ _ _ _ H0 Hrun) as (Hf & _ & _).
+  destruct (index_space_NoDup _ _ _ Hf Hidx) as [Hnd ->].
+  unfold emit_fnames. rewrite in_app_iff, emit_imp_names_spec, emit_body_names_spec. split.
+  - intros [(k & im & Hn & Hs & Hd & Hk & Hq)|(p & it & Hn & Hl & Hd & Hk & Hq)].
+    + right. exists k, im. rewrite !N.add_0_l in *. auto.
+    + left. exists p, it. rewrite N.add_0_l in Hq. subst q. repeat split; try assumption.
+      exact (mapping_pos lf p it Hnd Hn).
+  - intros [(p & it & Hn & Hl & Hd & Hk & _ & Hq)|(k & im & Hn & Hs & Hd & Hk & Hq)].
+    + right. exists p, it. rewrite N.add_0_l. auto.
+    + left. exists k, im. rewrite !N.add_0_l. auto.
+Qed.
+
+(* ------------------------------------------------------------------------------------------ *)
+(* 5. the index under which an import's name is emitted is the import's function index by Wasm's rule *)
+Lemma func_import_fps l :
+  map snd (filter (fun i : N * N => N.eqb (fst i) 0) (map (fun i => (i_sp i, i_fp i)) (filter (fun i => negb (i_del i)) l)))
+  = map i_fp (filter live_fi l).
+Proof.
+  induction l as [|x l IH]; [reflexivity|]. unfold live_fi in *. cbn [filter].
+  destruct (i_del x); cbn [negb andb map filter fst]; [exact IH|].
+  destruct (N.eqb (i_sp x) 0); cbn [map snd]; [f_equal|]; exact IH.
+Qed.
+Lemma nth_filter_before {A} (f : A -> bool) : forall l k x,
+  nth_error l k = Some x -> f x = true -> nth_error (filter f l) (length (filter f (firstn k l))) = Some x.
+Proof.
+  induction l as [|y l IH]; intros k x Hn Hf; [destruct k; discriminate|].
+  destruct k as [|k]; cbn in Hn.
+  - inversion Hn; subst. cbn. rewrite Hf. reflexivity.
+  - cbn [firstn filter]. destruct (f y); cbn [length nth_error]; exact (IH k x Hn Hf).
+Qed.
+
+Theorem import_name_index_is_wasm_index m dead sites e k im :
+  encode m dead sites = Ok e -> nth_error (m_imports m) k = Some im -> i_sp im = 0 -> i_del im = false ->
+  designates e SF (func_imports_before k (m_imports m)) = Some (i_fp im).
+Proof.
+  intros He Hn Hs Hd. unfold encode in He.
+  destruct (index_space (m_f m)) as [[lf mf]|]; [|discriminate].
+  destruct (index_space (m_g m)) as [[lg mg]|]; [|discriminate].
+  destruct (index_space (m_m m)) as [[lm mm]|]; [|discriminate].
+  destruct (emit_sites _ _ _ _ _ _ _ _) as [ss|]; [|discriminate].
+  inversion He; subst e; clear He.
+  unfold designates, space_of, nthN. cbn [e_imports e_funcs sp_code].
+  rewrite func_import_fps. unfold func_imports_before. rewrite lenN_length.
+  assert (Hlive : live_fi im = true) by (unfold live_fi; rewrite Hd, Hs; reflexivity).
+  pose proof (nth_filter_before live_fi _ _ _ Hn Hlive) as Hnth.
+  rewrite nth_error_app1.
+  - rewrite nth_error_map, Hnth. reflexivity.
+  - rewrite map_length. apply nth_error_Some. rewrite Hnth. discriminate.
+Qed.
+
+(* ------------------------------------------------------------------------------------------ *)
+(* 6. local and global names: correct exactly when the id maps are the identity on the named ids *)
+Lemma mapping_from_inv : forall l pos acc k p,
+  lookup (mapping_from pos l acc) k = Some p ->
+  (exists n it, nth_error l n = Some it /\ it_id it = k /\ p = pos + N.of_nat n) \/ lookup acc k = Some p.
+Proof.
+  induction l as [|i l IH]; intros pos acc k p H; cbn [mapping_from] in H; [right; exact H|].
+  apply IH in H as [(n & it & Hn & Hid & Hp)|H].
+  - left. exists (S n), it. cbn [nth_error]. repeat split; try assumption. lia.
+  - cbn [lookup] in H. destruct (N.eqb_spec k (it_id i)) as [->|Hne].
+    + inversion H; subst. left. exists 0%nat, i. cbn. repeat split. lia.
+    + right. rewrite lookup_filter_neq in H by exact Hne. exact H.
+Qed.
+Theorem mapping_inv l k p :
+  lookup (mapping l) k = Some p -> exists it, nth_error l (N.to_nat p) = Some it /\ it_id it = k.
+Proof.
+  unfold mapping. intros H. apply mapping_from_inv in H as [(n & it & Hn & Hid & Hp)|H]; [|discriminate].
+  exists it. subst p. rewrite N.add_0_l, Nat2N.id. auto.
+Qed.
+
+Definition maps_identity {B} (mp : list (N * N)) (named : list (N * B)) : Prop :=
+  forall k v, In (k, v) named -> lookup mp k = Some k.
+
+Lemma index_space_mapping s l m : index_space s = Ok (l, m) -> m = mapping l.
+Proof.
+  unfold index_space. destruct (s_recalc s).
+  - destruct (N.eqb _ _); intros H; inversion H; reflexivity.
+  - intros H; inversion H; reflexivity.
+Qed.
+
+(* PARTIAL: the local and the global name map are written back as parsed (D21).  They are right exactly in
+   the states in which no named global / no function with named locals has moved: then every entry (q, names)
+   sits at the position of the item whose stored id is q, i.e. of the very entity the input named. *)
+Theorem C29_partial :
+  forall (c : ncase) (s0 s : nst) (h : list nop) (rets : list (option N)) (e : emod) (n : names) lf mf lg mg,
+    init_state c = Ok s0 -> nrun_pref s0 h [] = (s, rets, false) -> nencode (nb_names c) s = Ok (e, n) ->
+    index_space (m_f (ns_m s)) = Ok (lf, mf) -> index_space (m_g (ns_m s)) = Ok (lg, mg) ->
+    maps_identity mg (n_globals (nb_names c)) -> maps_identity mf (n_locals (nb_names c)) ->
+    n_globals n = n_globals (nb_names c) /\ n_locals n = n_locals (nb_names c) /\
+    (forall q t, In (q, t) (n_globals n) -> exists it, nth_error lg (N.to_nat q) = Some it /\ it_id it = q) /\
+    (forall q l, In (q, l) (n_locals n) -> exists it, nth_error lf (N.to_nat q) = Some it /\ it_id it = q).
+Proof.
+  intros c s0 s h rets e n lf mf lg mg _ _ Henc Hf Hg Ig If.
+  unfold nencode in Henc. destruct (encode _ _ _) as [e'|]; [|discriminate].
+  rewrite Hf in Henc. inversion Henc; subst e n; clear Henc. cbn [emit_names n_globals n_locals].
+  apply index_space_mapping in Hf, Hg. subst mf mg.
+  repeat split.
+  - intros q t Hin. exact (mapping_inv _ _ _ (Ig q t Hin)).
+  - intros q l Hin. exact (mapping_inv _ _ _ (If q l Hin)).
+Qed.
+
+(* the global stored under an id keeps its identity (fingerprint) through every edit: globals are only appended
+   or flagged deleted, never replaced *)
+Definition g_stable (l l' : list item) : Prop :=
+  forall p it, nth_error l p = Some it -> exists it', nth_error l' p = Some it' /\ it_fp it' = it_fp it.
+Lemma g_stable_refl l : g_stable l l.
+Proof. intros p it H. exists it. auto. Qed.
+Lemma g_stable_trans a b c : g_stable a b -> g_stable b c -> g_stable a c.
+Proof. intros H1 H2 p it H. apply H1 in H as (it1 & H & E1). apply H2 in H as (it2 & H & E2). exists it2. split; congruence. Qed.
+Lemma g_stable_app l x : g_stable l (l ++ [x]).
+Proof. intros p it H. exists it. split; [|reflexivity]. rewrite nth_error_app1; [exact H|]. apply nth_error_Some. congruence. Qed.
+Lemma g_stable_del l id : g_stable l (if id <? lenN l then updN id (set_del true) l else l).
+Proof.
+  destruct (id <? lenN l); [|apply g_stable_refl]. intros p it H. unfold updN. rewrite nth_error_upd, H.
+  destruct (Nat.eqb p (N.to_nat id)); cbn; eexists; split; reflexivity.
+Qed.
+Lemma delete_in_g m s id m' : delete_in m s id = Ok m' -> g_stable (s_items (m_g m)) (s_items (m_g m')).
+Proof.
+  unfold delete_in. intros H. destruct (nthN _ id) as [it|]; [|discriminate].
+  destruct (it_imp it); inversion H; subst; clear H; destruct s; cbn; try apply g_stable_refl; apply g_stable_del.
+Qed.
+Lemma step_g_stable m o m' r : Reindex.step m o = Ok (m', r) -> g_stable (s_items (m_g m)) (s_items (m_g m')).
+Proof.
+  intros H. destruct o as [s fp|s fp|s id|id fp|k fp|fp|s id|k|mem]; cbn [Reindex.step] in H.
+  - destruct s; break_match_in H; inversion H; subst; cbn; try apply g_stable_refl; apply g_stable_app.
+  - destruct s; unfold push_import in H; cbn in H; break_match_in H; inversion H; subst; cbn; try apply g_stable_refl; apply g_stable_app.
+  - destruct (delete_in m s id) as [m1|] eqn:E; [|discriminate]. inversion H; subst. exact (delete_in_g _ _ _ _ E).
+  - destruct (nthN (s_items (m_f m)) id) as [it|]; [|discriminate].
+    destruct (is_import it); [inversion H; subst; apply g_stable_refl|].
+    destruct (delete_in m SF id) as [m1|] eqn:E; [|discriminate].
+    unfold push_import in H. cbn in H. inversion H; subst. cbn. exact (delete_in_g _ _ _ _ E).
+  - destruct (nthN (m_imports m) k) as [im|]; [|discriminate].
+    destruct (negb (N.eqb (i_sp im) 0)); [discriminate|].
+    destruct (nthN (s_items (m_f m)) k) as [it|]; [|discriminate].
+    destruct (is_local it); [inversion H; subst; apply g_stable_refl|].
+    destruct (delete_in m SF k) as [m1|] eqn:E; [|discriminate].
+    inversion H; subst. cbn. exact (delete_in_g _ _ _ _ E).
+  - inversion H; subst. cbn. apply g_stable_app.
+  - inversion H; subst. apply g_stable_refl.
+  - inversion H; subst. apply g_stable_refl.
+  - inversion H; subst. apply g_stable_refl.
+Qed.
+Lemma nstep_g_stable s o s' r : nstep s o = Ok (s', r) -> g_stable (s_items (m_g (ns_m s))) (s_items (m_g (ns_m s'))).
+Proof.
+  intros H. destruct o as [e b|id t|id t|id t|k t].
+  - apply nstep_edit_m in H. exact (step_g_stable _ _ _ _ H).
+  - unfold nstep, imp_set_fn_name in H. break_match_in H; inversion H; subst; apply g_stable_refl.
+  - unfold nstep in H. break_match_in H; inversion H; subst; apply g_stable_refl.
+  - unfold nstep, imp_set_fn_name in H. break_match_in H; inversion H; subst; apply g_stable_refl.
+  - unfold nstep in H. break_match_in H; inversion H; subst; apply g_stable_refl.
+Qed.
+Lemma nrun_pref_g_stable : forall h s rets s' rets' p,
+  nrun_pref s h rets = (s', rets', p) -> g_stable (s_items (m_g (ns_m s))) (s_items (m_g (ns_m s'))).
+Proof.
+  induction h as [|o h IH]; intros s rets s' rets' p H; cbn in H.
+  - inversion H; subst. apply g_stable_refl.
+  - destruct (nstep s o) as [[s1 r]|w] eqn:E.
+    + exact (g_stable_trans _ _ _ (nstep_g_stable _ _ _ _ E) (IH _ _ _ _ _ H)).
+    + inversion H; subst. apply g_stable_refl.
+Qed.
+
+Lemma index_space_incl s l m x : inv_space s -> index_space s = Ok (l, m) -> In x l -> In x (s_items s).
+Proof.
+  intros [_ Hle] H Hin. unfold index_space in H. destruct (s_recalc s).
+  - rewrite reorganise_spec_N in H by exact Hle. destruct (N.eqb _ _); inversion H; subst.
+    exact (spec_incl _ _ _ Hin).
+  - inversion H; subst. exact Hin.
+Qed.
+
+(* the same on the level of entities: under the hypothesis of C29_partial, the item found at output position q
+   is the very global that the input module had at index q (same fingerprint) *)
+Theorem C29_partial_global_entity :
+  forall (c : ncase) (s0 s : nst) (h : list nop) (rets : list (option N)) lg mg q t g0,
+    init_state c = Ok s0 -> nrun_pref s0 h [] = (s, rets, false) ->
+    index_space (m_g (ns_m s)) = Ok (lg, mg) ->
+    In (q, t) (n_globals (nb_names c)) -> lookup mg q = Some q ->
+    nth_error (s_items (m_g (ns_m s0))) (N.to_nat q) = Some g0 ->       (* the input's global number q *)
+    exists it, nth_error lg (N.to_nat q) = Some it /\ it_id it = q /\ it_fp it = it_fp g0.
+Proof.
+  intros c s0 s h rets lg mg q t g0 H0 Hrun Hg _ Hid Hg0.
+  pose proof (reachable_inv _ _ _ _ _ _ H0 Hrun) as (_ & Hgi & _).
+  pose proof (index_space_mapping _ _ _ Hg) as ->.
+  destruct (mapping_inv _ _ _ Hid) as (it & Hn & Hit). exists it. repeat split; try assumption.
+  destruct (nrun_pref_g_stable _ _ _ _ _ _ Hrun _ _ Hg0) as (it' & Hn' & Hfp).
+  assert (Hin : In it (s_items (m_g (ns_m s)))) by (apply (index_space_incl _ _ _ _ Hgi Hg); exact (nth_error_In _ _ Hn)).
+  assert (Hin' : In it' (s_items (m_g (ns_m s)))) by exact (nth_error_In _ _ Hn').
+  destruct Hgi as [Hp _].
+  assert (it = it') as ->; [|exact Hfp].
+  apply (pos_ids_inj _ Hp); try assumption. rewrite Hit, (Hp _ _ Hn'). symmetry. apply N2Nat.id.
+Qed.
+
+(* ------------------------------------------------------------------------------------------ *)
+(* 7. the boolean checker means what the property says                                          *)
+Lemma nmap_eqb_eq : forall a b : nmap, nmap_eqb a b = true -> a = b.
+Proof.
+  unfold nmap_eqb. induction a as [|[x1 x2] a IH]; intros [|[y1 y2] b] H; cbn in H; try discriminate; [reflexivity|].
+  apply andb_prop in H as [H1 H2]. unfold pair_eqb in H1. cbn in H1. apply andb_prop in H1 as [Ha Hb].
+  apply N.eqb_eq in Ha, Hb. subst. f_equal. exact (IH _ H2).
+Qed.
+
+(* the property on an observed output, as a proposition *)
+Definition Names_attached (s : nspec) (e : emod) (n : names) : Prop :=
+  (* every emitted function name sits on the entity that carries it (or that the conversion API named so) *)
+  (forall q t, In (q, t) (n_funcs n) ->
+     exists h, out_handle (sp_s s) e SF q = Some h /\ (lookup (sp_fn s) h = Some t \/ lookup (sp_alt s) h = Some t)) /\
+  (* every live named function still has a name entry *)
+  (forall h t, In (h, t) (sp_fn s) -> is_live (ss_f (sp_s s)) h = true ->
+     exists q t', In (q, t') (n_funcs n) /\ out_handle (sp_s s) e SF q = Some h) /\
+  (* local names *)
+  (forall q l, In (q, l) (n_locals n) -> exists h, out_handle (sp_s s) e SF q = Some h /\ iget (sp_ln s) h = Some l) /\
+  (forall h l, In (h, l) (sp_ln s) -> is_live (ss_f (sp_s s)) h = true ->
+     exists q l', In (q, l') (n_locals n) /\ out_handle (sp_s s) e SF q = Some h) /\
+  (* global names *)
+  (forall q t, In (q, t) (n_globals n) -> exists h, out_handle (sp_s s) e SG q = Some h /\ lookup (sp_gn s) h = Some t) /\
+  (forall h t, In (h, t) (sp_gn s) -> is_live (ss_g (sp_s s)) h = true ->
+     exists q t', In (q, t') (n_globals n) /\ out_handle (sp_s s) e SG q = Some h).
+
+Lemma has_entry_sound {B} s e x (out : list (N * B)) h :
+  has_entry s e x out h = true -> exists q v, In (q, v) out /\ out_handle s e x q = Some h.
+Proof.
+  unfold has_entry. intros H. apply existsb_exists in H as ([q v] & Hin & Hq). exists q, v. split; [exact Hin|].
+  cbn in Hq. destruct (out_handle s e x q) as [h'|]; cbn in Hq; [|discriminate]. apply N.eqb_eq in Hq. congruence.
+Qed.
+Lemma tok_allowed_sound t a b : tok_allowed t a b = true -> a = Some t \/ b = Some t.
+Proof.
+  unfold tok_allowed. destruct a as [x|], b as [y|]; intros H; try discriminate.
+  - apply orb_prop in H as [H|H]; apply N.eqb_eq in H; subst; auto.
+  - apply N.eqb_eq in H; subst; auto.
+  - apply N.eqb_eq in H; subst; auto.
+Qed.
+
+Theorem names_checker_sound (c : ncase) (e : emod) (n : names) :
+  holds c = true -> no_enc c = Some (e, n) ->
+  Names_attached (fst (nspec_final c)) e n /\ naming_panic c = false /\ sp_ret (fst (nspec_final c)) = true.
+Proof.
+  unfold holds. intros H Henc. rewrite Henc in H. set (s := fst (nspec_final c)) in *.
+  apply andb_prop in H as [H Hok]. apply andb_prop in H as [Hret Hpan]. apply negb_true_iff in Hpan.
+  split; [|split; assumption].
+  unfold names_ok in Hok.
+  apply andb_prop in Hok as [Hok Hgk]. apply andb_prop in Hok as [Hok Hgs]. apply andb_prop in Hok as [Hok Hlk].
+  apply andb_prop in Hok as [Hok Hls]. apply andb_prop in Hok as [Hfs Hfk].
+  unfold Names_attached. repeat split.
+  - intros q t Hin. unfold fn_sound in Hfs. apply andb_prop in Hfs as [_ Hfs].
+    rewrite forallb_forall in Hfs. specialize (Hfs _ Hin). cbn in Hfs.
+    destruct (out_handle (sp_s s) e SF q) as [h|]; [|discriminate]. exists h. split; [reflexivity|].
+    exact (tok_allowed_sound _ _ _ Hfs).
+  - intros h t Hin Hl. unfold fn_kept in Hfk. rewrite forallb_forall in Hfk. specialize (Hfk _ Hin). cbn in Hfk.
+    rewrite Hl in Hfk. cbn in Hfk. exact (has_entry_sound _ _ _ _ _ Hfk).
+  - intros q l Hin. unfold ln_sound in Hls. apply andb_prop in Hls as [_ Hls].
+    rewrite forallb_forall in Hls. specialize (Hls _ Hin). cbn in Hls.
+    destruct (out_handle (sp_s s) e SF q) as [h|]; [|discriminate]. exists h. split; [reflexivity|].
+    destruct (iget (sp_ln s) h) as [l'|]; [|discriminate]. apply nmap_eqb_eq in Hls. congruence.
+  - intros h l Hin Hl. unfold ln_kept in Hlk. rewrite forallb_forall in Hlk. specialize (Hlk _ Hin). cbn in Hlk.
+    rewrite Hl in Hlk. cbn in Hlk. exact (has_entry_sound _ _ _ _ _ Hlk).
+  - intros q t Hin. unfold gn_sound in Hgs. apply andb_prop in Hgs as [_ Hgs].
+    rewrite forallb_forall in Hgs. specialize (Hgs _ Hin). cbn in Hgs.
+    destruct (out_handle (sp_s s) e SG q) as [h|]; [|discriminate]. exists h. split; [reflexivity|].
+    destruct (lookup (sp_gn s) h) as [t'|]; [|discriminate]. apply N.eqb_eq in Hgs. congruence.
+  - intros h t Hin Hl. unfold gn_kept in Hgk. rewrite forallb_forall in Hgk. specialize (Hgk _ Hin). cbn in Hgk.
+    rewrite Hl in Hgk. cbn in Hgk. exact (has_entry_sound _ _ _ _ _ Hgk).
 Qed.
